@@ -17,6 +17,9 @@ Record ccase := CC {
   c_fail : fail;                    (* scripted failing step with the error value it fails with,
                                        described by the harness from how it BUILT the error *)
   c_T : Z;                          (* timeout argument, ns *)
+  c_cbd : Z;                        (* how long every extension callback blocks, ns (0: returns at once) *)
+  c_race : bool;                    (* race script: the timer and messages are MEANT to be ready together
+                                       (slow callbacks, arrivals at the deadline); compared with [wait_nd] *)
   c_arr : list (Z * bytes);         (* arrivals after the publish: ns since the publish, payload *)
   c_parse : list (bytes * bytes);   (* payload -> summary of resprot.ParseResponse(payload) *)
   g_resp : bytes;                   (* summary of the returned Response *)
@@ -32,6 +35,8 @@ Record ccase := CC {
 
 Definition margin : Z := 120000000.      (* 3 grid steps of 40 ms *)
 Definition tolerance : Z := 100000000.   (* elapsed time is compared to +-100 ms *)
+
+Definition race_window : Z := 40000000.   (* ready within 40 ms of each other: either may be chosen *)
 
 Definition cb_eqb (a b : nat * Z) : bool := Nat.eqb (fst a) (fst b) && (snd a =? snd b).
 Fixpoint list_eqb {A} (e : A -> A -> bool) (a b : list A) : bool :=
@@ -82,8 +87,23 @@ Fixpoint separated (now dl : Z) (arr : list (Z * bytes)) : bool :=
   end.
 
 (* field codes: 1 response  2 callbacks  3 subscribed/published  4 released  5 elapsed time
-   6 script not separated by the margin (the harness generated a racy script) *)
-Definition check_case (c : ccase) : list N :=
+   6 script not separated by the margin (the harness generated a racy script)
+   7 race script: (response, callbacks, elapsed) is none of the results wait_nd allows *)
+(* race scripts: the observation must be one of the results [wait_nd] allows *)
+Definition race_match (c : ccase) (r : loopres) : bool :=
+  (match l_out r with
+   | OResponse p => resp_is c (parse_of c p)
+   | o => beq (expected_summary c o) (g_resp c)
+   end) &&
+  cbs_eqb (l_cbs r) (g_cbs c) &&
+  (Z.abs (g_elapsed c - l_time r) <=? tolerance + race_window).
+
+Definition check_race (c : ccase) : list N :=
+  (if existsb (race_match c) (wait_nd race_window (c_cbd c) (c_ncb c) 0 (c_T c) (c_arr c)) then [] else [7%N]) ++
+  (if g_subscribed c && g_published c then [] else [3%N]) ++
+  (if g_released c then [] else [4%N]).
+
+Definition check_det (c : ccase) : list N :=
   let r := send (c_ncb c) (c_fail c) (c_T c) (c_arr c) in
   ((if (match r_out r with
         | OResponse _ => resp_is c (expected_summary c (r_out r))
@@ -94,6 +114,12 @@ Definition check_case (c : ccase) : list N :=
    (if Bool.eqb (r_released r) (g_released c) then [] else [4%N]) ++
    (if Z.abs (g_elapsed c - r_time r) <=? tolerance then [] else [5%N]) ++
    (match c_fail c with FNone => if separated 0 (c_T c) (c_arr c) then [] else [6%N] | _ => [] end)).
+
+Definition check_case (c : ccase) : list N :=
+  match c_race c, c_fail c with
+  | true, FNone => check_race c
+  | _, _ => check_det c
+  end.
 
 (* ---- the property on the implementation's outputs ---- *)
 (* the leading run of pre-responses and the first real response, if any *)
@@ -125,6 +151,10 @@ Fixpoint recv_run (now dl : Z) (pre : list (Z * bytes)) : list (Z * bytes) * Z *
    5 timeout returned although the first real response arrived before the current deadline
    6 a response returned although it (or a pre-response before it) arrived after the deadline
    7 timeout returned, but the callbacks are not those of the pre-responses received in time
+   9 race script, timeout returned: the callbacks are not those of an initial part of the
+     pre-responses (codes 1 and 3 apply to race scripts unchanged: whichever way a tie goes, the
+     result is the timeout error or the parsed first real response, never a pre-response parsed
+     as a response)
    8 the request was published with an unexpected subject / reply inbox / payload *)
 Definition viol_case (c : ccase) : list N :=
   let ncb := c_ncb c in
@@ -134,13 +164,16 @@ Definition viol_case (c : ccase) : list N :=
   let first_in_time := match first with Some (t0, _) => all_pre_in_time && (Z.max now' t0 <? dl') | None => false end in
   let is_first := match first with Some (_, p) => resp_is c (parse_of c p) | None => false end in
   let is_tmo := beq (g_resp c) tmo_summary in
+  let det := negb (c_race c) in     (* codes 5 6 7 presuppose decisions away from a tie *)
   (match c_fail c with
    | FNone =>
      (if is_first || is_tmo then [] else [1%N]) ++
      (if is_first && negb is_tmo && negb (cbs_eqb (g_cbs c) (notes ncb pre)) then [3%N] else []) ++
-     (if is_tmo && negb is_first && first_in_time then [5%N] else []) ++
-     (if is_first && negb is_tmo && negb first_in_time then [6%N] else []) ++
-     (if is_tmo && negb is_first && negb first_in_time && negb (cbs_eqb (g_cbs c) (notes ncb got)) then [7%N] else []) ++
+     (if det && is_tmo && negb is_first && first_in_time then [5%N] else []) ++
+     (if det && is_first && negb is_tmo && negb first_in_time then [6%N] else []) ++
+     (if det && is_tmo && negb is_first && negb first_in_time && negb (cbs_eqb (g_cbs c) (notes ncb got)) then [7%N] else []) ++
+     (if negb det && is_tmo && negb is_first &&
+         negb (existsb (fun k => cbs_eqb (g_cbs c) (notes ncb (firstn k pre))) (seq 0 (S (length pre)))) then [9%N] else []) ++
      (if g_pubok c then [] else [8%N])
    | _ =>
      (if beq (g_resp c) (int_summary c) && is_nil (g_cbs c) && (g_elapsed c <=? tolerance) then [] else [4%N])
